@@ -137,6 +137,11 @@ func VerifC18_RegistryStepHigh() {
 func VerifC18_LockedRegistration() {
 	w := NewWorld(1)
 	_ = ComponentID[vPos](w)
+	// the most recently registered component is a relation in one variant
+	relLast := vPick("relation-registered-last", 2) == 1
+	if relLast {
+		_ = ComponentID[vChild](w)
+	}
 	l := w.lock()
 	before := w.storage.registry.Count()
 	panicked := vpanics(func() { _ = ComponentID[vVel](w) })
@@ -144,6 +149,11 @@ func VerifC18_LockedRegistration() {
 	vcheck("no-id-consumed", w.storage.registry.Count() == before && len(w.storage.components) == before && len(w.storage.registry.IDs) == before)
 	_, used := w.storage.registry.ComponentType(uint8(before))
 	vcheck("slot-unused", !used && !w.storage.registry.IsRelation[before])
+	vcheck("registry-invariant-after-rejected-registration", vpure(func() bool { return invRegistry(w) }))
+	if relLast {
+		info, ok := ComponentInfo(w, ID{uint8(before - 1)})
+		vcheck("previous-component-unchanged", ok && info.IsRelation)
+	}
 	// known components still resolve while locked
 	vcheck("known-ok", !vpanics(func() { _ = ComponentID[vPos](w) }))
 	w.unlock(l)
